@@ -88,7 +88,7 @@ def _configs(tier, salts):
                     cfg["tag_start"] = "at_min_nonzero_residual"
                     out.append((cfg, {"depth": 0 if mode == "l1" else 1, "letters": LETTERS}))
         # the broad option bank, deterministic modes only
-        if salt == 0 or tier == "thorough":
+        if salt == 0 or (tier == "thorough" and salt == 1):
             for name, cfg in cfgs.broad_cfgs(salt=salt, exclude=("noisy",), budgets=(7, 25, 60)):
                 depth = 1 if (cfg["maxfun"] == 25 and "reg" not in cfg["broad_flags"] and (tier == "thorough" or cfg["prob"]["f"] == "rosen")) else 0
                 out.append((cfg, {"depth": depth, "letters": ["best", "x0", "x3", "nan"]}))
